@@ -6,7 +6,7 @@ CONSTANTS
   Init0 <- mcInit
   SrcVals = {"S0", "S1"}
   UserActs = {"edit", "build", "clean", "rules", "tamper", "deltarget", "delcache"}
-  Goals = {"", "t1", "d"}
+  Goals = {"", "o.s", "d"}
   MaxUser = 7
   FreeFrom = 0
   Script <- NoScript
